@@ -328,6 +328,110 @@ def gen_pipe_cases(rng, n):
     return cases
 
 
+def gen_merge_cases(rng, n):
+    """operand pairs of a.iadd_prefactor_other(1., b): same legs, labels and qtotal, independent block subsets;
+    'raw': tables left unsorted with the sorted flag forced (the loop itself on arbitrary tables)"""
+    cases = []
+    while len(cases) < n:
+        mods = c04_gen.gen_mods(rng) if rng.random() < 0.6 else []
+        pool = [c04_gen.gen_leg(rng, mods, empty_blocks=False) for _ in range(rng.choice([1, 2, 3]))]
+        rank = rng.choice([1, 2, 2, 3, 3])
+        types = [['L', rng.randrange(len(pool)), rng.choice([1, -1])] for _ in range(rank)]
+        a = c04_gen.gen_tensor_spec(rng, mods, pool, types, dtype='float64', fill=rng.choice([1.0, 0.7, 0.5, 0.3]))
+        same = rng.random() < 0.12
+        b = c04_gen.gen_tensor_spec(rng, mods, pool, types, labels=a['labels'], dtype='float64', qtotal=a['qtotal'],
+                                    fill=rng.choice([1.0, 0.7, 0.5, 0.3, 0.0]))
+        if same:                                       # the fast path Na == Nb and np.all(aq == bq)
+            b = dict(b, blocks=[dict(x) for x in a['blocks']])
+            rng.shuffle(b['blocks'])
+        if len(a['blocks']) + len(b['blocks']) == 0 and rng.random() < 0.9:
+            continue
+        cases.append({'f': 'merge', 'mods': mods, 'pool': pool, 'a': a, 'b': b, 'raw': rng.random() < 0.25})
+    return cases
+
+
+def gen_itrans_cases(rng, n):
+    """Array states (optionally already transposed once: strided views in python) and axes arguments of itranspose:
+    permutations by index / label / mixed, None, the identity, invalid axes, and a few Arrays whose labels violate
+    the class invariant (duplicate) -- there the two models predict DIFFERENT behaviour"""
+    cases = []
+    for _ in range(n):
+        mods = c04_gen.gen_mods(rng)
+        pool = [c04_gen.gen_leg(rng, mods, maxb=3, empty_blocks=False) for _ in range(rng.choice([1, 2, 3]))]
+        rank = rng.choice([1, 2, 2, 3, 3, 4])
+        types = [['L', rng.randrange(len(pool)), rng.choice([1, -1])] for _ in range(rank)]
+        a = c04_gen.gen_tensor_spec(rng, mods, pool, types, dtype=rng.choice(['float64', 'int64']),
+                                    fill=rng.choice([1.0, 0.7, 0.4]))
+        for k, blk in enumerate(a['blocks']):          # distinct entries: a wrong element order is visible
+            blk['re'] = [50 * k + t + 1 for t in range(len(blk['re']))]
+        c = {'f': 'itrans', 'mods': mods, 'pool': pool, 'a': a, 'sort_first': rng.random() < 0.5, 'pre_axes': None,
+             'force_labels': None}
+        if rng.random() < 0.3:
+            c['pre_axes'] = rng.sample(range(rank), rank)
+        labels = list(a['labels'])
+        if c['pre_axes'] is not None:
+            labels = [labels[i] for i in c['pre_axes']]
+        r = rng.random()
+        if r < 0.07 and rank >= 2:
+            named = [i for i, l in enumerate(labels) if l is not None]
+            if named:
+                labels = list(labels)
+                labels[rng.choice([i for i in range(rank) if i != named[0]])] = labels[named[0]]
+                c['force_labels'] = labels
+        perm = rng.sample(range(rank), rank)
+        r = rng.random()
+        if r < 0.08 and rank >= 2:
+            axes = None
+        elif r < 0.14:
+            axes = list(range(rank))
+        elif r < 0.27:
+            axes = list(perm)
+            k = rng.choice(['dup', 'short', 'long', 'range'])
+            if k == 'dup':
+                axes[rng.randrange(rank)] = axes[rng.randrange(rank)]
+            elif k == 'short':
+                axes = axes[:-1]
+            elif k == 'long':
+                axes = axes + [rng.randrange(rank)]
+            else:
+                axes[rng.randrange(rank)] = rank + rng.choice([0, 1])
+        else:
+            axes = list(perm)
+        if axes is not None and rng.random() < 0.5:
+            axes = [labels[x] if (isinstance(x, int) and x < rank and labels[x] is not None and labels.count(labels[x]) == 1
+                                  and rng.random() < 0.7) else x for x in axes]
+        c['axes'] = axes
+        cases.append(c)
+    return cases
+
+
+def _arrz_lit(st):
+    return '(mkArrZ %s %s %s %s %s)' % (
+        coq_lit(st['legs']), coq_lit([None if l is None else common.Some(l) for l in st['labels']]),
+        coq_lit(st['qdata']), coq_lit([(b[0], b[1], b[2]) for b in st['blocks']]), coq_lit(bool(st['sorted'])))
+
+
+def coq_kernel_case3(c, out):
+    """Coq literal of Model/KernelsPyCy3Check.v (kernel_case3): the merge of iadd_prefactor_other and itranspose"""
+    f = c['f']
+    if 'runner_error' in out or 'crash' in out:
+        return None
+    if f == 'merge' and 'tags' in out:
+        return 'KMerge %s %s %s %s %s' % (coq_lit(out['shape']), coq_lit(out['aq']), coq_lit(out['bq']), coq_lit(out['q']),
+                                          coq_lit([tuple(t) for t in out['tags']]))
+    if f == 'itrans' and 'pre' in out:
+        if sum(len(b[0]) for b in out['pre']['blocks']) > 3000:
+            return None
+        post = 'None' if out['post'] is None else '(Some %s)' % _arrz_lit(out['post'])
+        return 'KItrans %s %s %s' % (_arrz_lit(out['pre']), coq_lit(out['axes_idx']), post)
+    return None
+
+
+def strip_layout(o):
+    """the part of an 'itrans' record that must agree between the configurations (memory layout is not observed)"""
+    return {k: v for k, v in o.items() if k not in ('pre', 'post')}
+
+
 def coq_kernel_case(c, out):
     """Coq literal (kernel_case constructor applied to input and the implementation's output) or None"""
     f = c['f']
@@ -395,7 +499,7 @@ def main(ctx):
         nonlocal t0
         tm[name] = round(time.time() - t0, 1)
         t0 = time.time()
-    ctx.proof = common.check_proofs('C04')
+    ctx.proof = common.check_proofs('C04', extra_targets=['Model/KernelsPyCy3Check.vo'])
     mark('proofs')
     mult = 3 if not ctx.proof.ok else 1
     nprog = ctx.pick(500, 4000) * mult
@@ -415,6 +519,8 @@ def main(ctx):
             zs.append(c)
     # stream 4: helper functions called directly
     kcases = gen_kernel_cases(rng, ctx.pick(2500, 20000) * mult) + gen_pipe_cases(rng, ctx.pick(250, 2000))
+    # stream 4b: the merge loop of iadd_prefactor_other and itranspose, observed for the models of KernelsPyCy2/3.v
+    kcases += gen_merge_cases(rng, ctx.pick(150, 1200) * mult) + gen_itrans_cases(rng, ctx.pick(150, 1200) * mult)
     # stream 5: tiny algorithm runs
     algos = [{'kind': 'dmrg', 'model': 'xxz', 'L': 4, 'Jz': 1.0}, {'kind': 'dmrg', 'model': 'tfi', 'L': 4, 'g': 0.7, 'mixer': True},
              {'kind': 'tebd', 'model': 'xxz', 'L': 4, 'Jz': 0.5, 'steps': 4, 'order': 2},
@@ -452,6 +558,8 @@ def main(ctx):
     coq_idx = {'py': [], 'cy': []}
     coq_cases2 = {'py': [], 'cy': []}
     coq_idx2 = {'py': [], 'cy': []}
+    coq_cases3 = {'py': [], 'cy': []}
+    coq_idx3 = {'py': [], 'cy': []}
     if outk is not None:
         for i, (c, p, y) in enumerate(zip(kcases, outk['py'], outk['cy'])):
             f = c['f']
@@ -464,9 +572,16 @@ def main(ctx):
                              {'stream': 'kernels', 'case': c}, match_key='C04:%s:raises-in-one-configuration' % f)
                 ctx.count('kernels', c, nontrivial=False)
                 continue
-            d = [] if p == y else obs_diff(p, y, f)
+            if f == 'itrans':
+                # an Array with a duplicated label violates the class invariant: python raises where the compiled version
+                # permutes (T04_itranspose_invalid_labels_refuted); not a difference between valid programs
+                d = [] if c.get('force_labels') is not None else obs_diff(strip_layout(p), strip_layout(y), f)
+            else:
+                d = [] if p == y else obs_diff(p, y, f)
             nontriv = True
-            ctx.count('kernels:' + f, c, nontrivial=nontriv, sample=c if f != 'pipe' else None)
+            if f == 'merge':
+                nontriv = len(p.get('q', [])) > 0
+            ctx.count('kernels:' + f, c, nontrivial=nontriv, sample=c if f not in ('pipe', 'merge', 'itrans') else None)
             if d:
                 key = 'C04:%s:%s' % (f, ','.join(sorted(set(x.split('/')[-1] for x in d)))[:50])
                 if f == 'find_row_differences' and c['shape'][0] == 0 and c['shape'][1] > 0:
@@ -490,6 +605,10 @@ def main(ctx):
                 if lit2 is not None:
                     coq_cases2[cfg].append('(%s)' % lit2)
                     coq_idx2[cfg].append(i)
+                lit3 = coq_kernel_case3(c, o)
+                if lit3 is not None:
+                    coq_cases3[cfg].append('(%s)' % lit3)
+                    coq_idx3[cfg].append(i)
         # ---- the Coq models against BOTH configurations (tie K, twice)
         for cfg in ('py', 'cy'):
             bad, err = common.coq_failing_indices('cases_c04_' + cfg, ['Base.Prelude', 'Model.KernelsPyCy'], 'check_' + cfg,
@@ -517,8 +636,23 @@ def main(ctx):
                          {'stream': 'kernels', 'case': kcases[i], 'impl': outk[cfg][i]})
             ctx.cov['traces2_validated_against_impl_' + cfg] = len(coq_cases2[cfg])
             mark('coq-model2-' + cfg)
+            # third stream: the merge of iadd_prefactor_other and itranspose (Model/KernelsPyCy3Check.v)
+            bad3, err3 = common.coq_failing_indices('cases3_c04_' + cfg, ['Base.Prelude', 'Model.KernelsPyCy', 'Model.KernelsPyCy2',
+                                                                          'Model.KernelsPyCy3', 'Model.KernelsPyCy3Check'],
+                                                    'check3_' + cfg, coq_cases3[cfg], shard=150)
+            if err3:
+                ctx.fail('correspondence', 'model evaluation failed (kernels3, %s): %s' % (cfg, err3[-600:]), None)
+            for b in bad3[:5]:
+                i = coq_idx3[cfg][b]
+                ctx.fail('correspondence', 'Model/KernelsPyCy2.v/KernelsPyCy3.v (%s_%s: %s) and the %s configuration disagree' % (
+                    kcases[i]['f'], cfg, 'iadd_merge' if kcases[i]['f'] == 'merge' else 'itranspose', cfg),
+                    {'stream': 'kernels', 'case': kcases[i], 'impl': outk[cfg][i]})
+            ctx.cov['traces3_validated_against_impl_' + cfg] = len(coq_cases3[cfg])
+            ctx.cov['traces3_by_kernel_' + cfg] = {k: sum(1 for i in coq_idx3[cfg] if kcases[i]['f'] == k) for k in ('merge', 'itrans')}
+            mark('coq-model3-' + cfg)
         ctx.cov['traces_validated_against_impl'] = (len(coq_cases['py']) + len(coq_cases['cy'])
-                                                    + len(coq_cases2['py']) + len(coq_cases2['cy']))
+                                                    + len(coq_cases2['py']) + len(coq_cases2['cy'])
+                                                    + len(coq_cases3['py']) + len(coq_cases3['cy']))
     if outa is not None:
         for c, p, y in zip(algos, outa['py'], outa['cy']):
             ctx.count('algorithms', c, nontrivial=True, sample={'case': c, 'E_py': p.get('E'), 'E_cy': y.get('E')})
@@ -551,15 +685,17 @@ def main(ctx):
     ctx.assumptions += [
         'C04 kernel models (coq/Model/KernelsPyCy.v): charges/shapes are mathematical integers; the compiled variants wrap to '
         'int64 explicitly and the theorems assume |q| < 2^62 resp. products < 2^63',
-        'C04 not modelled in Coq: the BLAS merge of iadd_prefactor_other, the combine/split/tensordot/inner workers, itranspose '
-        '(compared differentially on identical programs only); memory layout (contiguity) is not part of the observation',
+        'C04 not modelled in Coq: the BLAS arithmetic of iadd_prefactor_other (its block merge and itranspose ARE modelled and executed '
+        'against both configurations: Model/KernelsPyCy3Check.v), the combine/split/tensordot/inner workers (compared differentially on '
+        'identical programs only); memory layout (contiguity) is not part of the differential observation',
         'C04: effects of in-place writes through shallow copies are excluded from the differential (documented as unspecified by Array.copy; '
         'they are the subject of C03)',
     ]
     return ctx.finish(RULE, 'identical serialised programs and helper calls are run in a pure-Python and a freshly rebuilt compiled '
                       'interpreter and every observable (legs incl. pipe tables, labels, qtotal, dtype, block set, values, error class) '
-                      'is diffed; the Coq models of both variants of make_valid/check_valid/_find_row_differences/_make_stride/_map_blocks '
-                      'are proved equal and each is evaluated (vm_compute) against its configuration')
+                      'is diffed; the Coq models of both variants of make_valid/check_valid/_find_row_differences/_make_stride/_map_blocks, '
+                      'LegPipe._init_from_legs, _sliced_copy, the merge of iadd_prefactor_other and itranspose are proved equal and each is '
+                      'evaluated (vm_compute) against its configuration')
 
 
 def replay(ctx):
